@@ -105,3 +105,14 @@ reg('C14', 'caches', 'rule_writeonce')
 reg('C20', 'replace_cache', 'rule_reset')
 reg('C20', 'replace_cache', 'rule_fresh')
 reg('C20', 'replace_cache', 'rule_publish_order')
+
+# ---- strengthening after the independent breakage round 2
+reg('C12', 'codec', 'rule_line_reset')
+reg('C15', 'jsonmap', 'rule_json_skip')
+reg('C15', 'jsonmap', 'rule_json_pure')
+reg('C04', 'streams', 'rule_sticky')
+reg('C13', 'streams', 'rule_sticky')
+reg('C13', 'caches', 'rule_encode_all')
+reg('C01', 'replace_cache', 'rule_sibling_splice')
+reg('C05', 'replace_cache', 'rule_sibling_splice')
+reg('C07', 'replace_cache', 'rule_sibling_splice')
